@@ -2083,4 +2083,37 @@ theorem regular_row_step (t0 : Int) (P L k dead : Nat) (dt : Int) :
 example : (regularImg 100 2 3 2 6 10).map (fun r => r.map fun p => (p.tmin, p.tmax)) =
     exKymo.img.map (fun r => r.map fun p => (p.tmin, p.tmax)) := by decide +kernel
 
+theorem chunks_map {α β} (f : α → β) (k : Nat) (l : List α) : chunks k (l.map f) = (chunks k l).map (List.map f) := by
+  fun_induction chunks k l with
+  | case1 l hk => subst hk; rw [chunks_zero]; rfl
+  | case2 l hk hlt => unfold chunks; simp [hk, hlt]
+  | case3 l hk hlt ih =>
+    conv => lhs; unfold chunks
+    simp only [dif_neg hk, List.length_map, if_neg hlt, List.map_cons, ← List.map_take, ← List.map_drop, ih]
+
+theorem addRows_window (band : List (List Pix)) (c0 c1 : Nat) :
+    addRows (band.map fun row => (row.take c1).drop c0) = ((addRows band).take c1).drop c0 := by
+  cases band with
+  | nil => simp [addRows]
+  | cons r rs =>
+    simp only [addRows, List.map_cons]
+    induction rs generalizing r with
+    | nil => rfl
+    | cons x xs ih =>
+      simp only [List.map_cons, List.foldl_cons]
+      rw [← ih (List.zipWith Pix.add r x)]
+      congr 1
+      rw [List.take_zipWith, List.drop_zipWith]
+
+/-- **A time window of whole bins commutes with binning in time**: binning lines `tf·a ≤ c < tf·b` of the image (what a
+    time slice on bin edges followed by `downsampled_by` shows) gives lines `a ≤ c < b` of the binned image. -/
+theorem slice_then_downsample (img : Img) (pf tf : Nat) (htf : 0 < tf) (a b : Nat) :
+    blockReduce (takeCols img (tf * a) (tf * b)) pf tf = takeCols (blockReduce img pf tf) a b := by
+  unfold blockReduce takeCols
+  rw [chunks_map, List.map_map, List.map_map]
+  apply List.map_congr_left
+  intro band _
+  simp only [Function.comp_apply]
+  rw [addRows_window, chunks_window tf htf, List.map_drop, List.map_take]
+
 end Verif.C06
